@@ -54,6 +54,12 @@ def gen_cases(rng, n):
             T = rng.randint(1, 12)
             int_in = rng.random() < 0.2
             X = [[Fraction(rng.randint(-5, 5)) for _ in range(dim)] for _ in range(T)] if int_in else rand_rows(rng, T, dim, lim=6, maxpow=1)
+            if rng.random() < 0.3 and T >= 4:
+                # silent stretches: null input rows every `period` steps, so that at some steps every SELECTED row of the window (hence the
+                # whole output) is zero while the rows lying between the strides are not -- they must still come out later
+                period = strides if strides > 1 and rng.random() < 0.7 else rng.randint(1, 2)
+                ph = rng.randrange(period)
+                X = [[Fraction(0)] * dim if t % period == ph else row for t, row in enumerate(X)]
             cases.append({"kind": "nvar", "delay": delay, "order": order, "strides": strides, "dim": dim, "X": X, "int_input": int_in,
                           "mode": rng.choice(["run", "run", "calls", "scribble"])})
         elif kind == "concat":
@@ -223,6 +229,12 @@ def nontrivial(c, o):
 def jsonable(c):
     import json
     return json.loads(json.dumps(c, default=lambda f: str(f)))
+
+
+def pregen(ctx):
+    """tie (T): re-translate nvar.py / delay.py / concat.py forward functions of the tree under test into coq/gen/Gen_windows.v"""
+    from vlib import gen
+    return gen.pregen_units(["windows"])
 
 
 def correspondence(ctx):
